@@ -136,6 +136,11 @@ def ops(spec):
         out.append(("value", "a", w))
     out.append(("value", "b", 0))
     out += [("state", "Busy"), ("state", "Alert"), ("vec-enabled", False), ("vec-enabled", True), ("grp-enabled", False), ("grp-enabled", True), ("el-enabled", "b", False), ("el-enabled", "b", True), ("by-enabled", False)]
+    # every element of the property can be disabled: an enabled property none of whose elements is enabled is still
+    # defined (with an empty element list)
+    out += [("el-enabled", "a", False)]
+    if kind == "switch":
+        out += [("el-enabled", "c", False)]
     if kind == "blob":
         out.append(("unset", "a"))
     return out
